@@ -1,5 +1,5 @@
 (* C08 -- A crash at any instant leaves a repository that reopens consistent.
-   Statements only; proofs in Proofs/CrashProofsA.v .. CrashProofsE.v; model in Model/Crash.v (emptyTrash as repaired by
+   Statements only; proofs in Proofs/CrashProofsA.v .. CrashProofsG.v; model in Model/Crash.v (emptyTrash as repaired by
    /repo e615ec5: records rows and trash rows deleted in ONE transaction).
 
    `crash s p k` = the first k steps of plan p from state s, then recovery (the uncommitted transaction is dropped).
@@ -7,7 +7,8 @@
    fault-free or crashed and recovered), ALL operations with ALL arguments, and ALL crash indices k (k beyond the length of
    the plan = the operation completed). *)
 From Coq Require Import NArith List Bool.
-From V Require Import Model.Crash Proofs.CrashProofsA Proofs.CrashProofsB Proofs.CrashProofsC Proofs.CrashProofsD Proofs.CrashProofsE.
+From V Require Import Model.Crash Proofs.CrashProofsA Proofs.CrashProofsB Proofs.CrashProofsC Proofs.CrashProofsD Proofs.CrashProofsE
+  Proofs.CrashProofsF Proofs.CrashProofsG.
 Import ListNotations.
 Open Scope N_scope.
 
@@ -179,6 +180,130 @@ Theorem stale_trash_row_window :
 Proof. split; vm_compute; reflexivity. Qed.
 Print Assumptions stale_trash_row_window.
 
+(* ================================================================================================================
+   Wave 5: the invariant in every reachable state, the content of a completed transfer, programs of several operations
+   ================================================================================================================ *)
+
+(* 6. A completed transfer_from: every transferred dataset is registered, located, known to the datastore, and a fresh
+      Butler reads the SOURCE content (the source repository's dataset d holds `src_value d`). *)
+Theorem transfer_completes : forall s l d, ovl s = None -> insert_ok (cdb s) l = true -> mem d l = true ->
+  let s' := run_op s (Transfer l) in
+  recorded s' d = true /\ knows s' d = true /\ mem d (d_loc (cdb s')) = true /\ get s' d = GotValue (src_value d)
+  /\ artifact s' d = true.
+Proof. exact transfer_completes_l. Qed.
+Print Assumptions transfer_completes.
+
+(* 7. `good` is preserved by EVERY crash of EVERY operation, insertions included.  `fresh_targets s o`: a target that is not
+      registered is not the id of a deletion that is still pending (real dataset ids are new UUIDs, so this always holds
+      for the implementation; the model identifies id, slot and path, hence the guard). *)
+Theorem crash_keeps_invariant : forall s o k,
+  good s -> (is_insert o = true -> fresh_targets s o) -> good (crash s (plan s o) k).
+Proof. exact good_crash_l. Qed.
+Print Assumptions crash_keeps_invariant.
+
+(* ... so it holds after every FAULT-FREE history, with no premise at all (there a pending deletion always belongs to a
+   dataset that is still registered, and an accepted insertion never targets a registered dataset) ... *)
+Theorem invariant_all_histories : forall h, good (run init h).
+Proof. exact good_all_histories_l. Qed.
+Print Assumptions invariant_all_histories.
+
+(* ... and after every history in which any member may have died at any step, under the fresh-id guard. *)
+Theorem invariant_all_crash_histories : forall hs, hist_fresh init hs = true -> good (runh init hs).
+Proof. intros hs F. apply good_runh; [exact good_init | exact F]. Qed.
+Print Assumptions invariant_all_crash_histories.
+
+(* 8. Therefore `rerun_completes` holds from EVERY reachable state without the premise `good s`. *)
+Theorem rerun_completes_all_histories : forall h o k ord2, is_removal o = true ->
+  let s := run init h in
+  let u := crash s (plan s o) k in
+  good u
+  /\ (let u1 := run_op u (EmptyTrash ord2) in
+      (forall x, mem x (d_trash (cdb u1)) = false)
+      /\ (forall d, mem d (d_trash (cdb u)) = true -> datastore_gone u1 d /\ fget (Final d) (fs u1) = None))
+  /\ (let u2 := run_op (run_op u o) (EmptyTrash ord2) in
+      (forall x, mem x (d_trash (cdb u2)) = false)
+      /\ (forall d, rerun_target u o d = true ->
+                    datastore_gone u2 d /\ (purges o = true -> recorded u2 d = false)
+                    /\ (knows (run_op u o) d = true -> fget (Final d) (fs u2) = None))).
+Proof. intros h o k ord2 R. apply rerun_completes_l; [apply good_all_histories_l | exact R]. Qed.
+Print Assumptions rerun_completes_all_histories.
+
+Theorem rerun_completes_all_crash_histories : forall hs o k ord2, hist_fresh init hs = true -> is_removal o = true ->
+  let s := runh init hs in
+  let u := crash s (plan s o) k in
+  good u
+  /\ (let u1 := run_op u (EmptyTrash ord2) in
+      (forall x, mem x (d_trash (cdb u1)) = false)
+      /\ (forall d, mem d (d_trash (cdb u)) = true -> datastore_gone u1 d /\ fget (Final d) (fs u1) = None))
+  /\ (let u2 := run_op (run_op u o) (EmptyTrash ord2) in
+      (forall x, mem x (d_trash (cdb u2)) = false)
+      /\ (forall d, rerun_target u o d = true ->
+                    datastore_gone u2 d /\ (purges o = true -> recorded u2 d = false)
+                    /\ (knows (run_op u o) d = true -> fget (Final d) (fs u2) = None))).
+Proof. intros hs o k ord2 F R. apply rerun_completes_l; [apply good_runh; [exact good_init | exact F] | exact R]. Qed.
+Print Assumptions rerun_completes_all_crash_histories.
+
+(* ... and the all-or-nothing theorem needs no `fresh_id` premise after a fault-free history *)
+Theorem crash_insertion_all_or_nothing_all_histories : forall h o k d,
+  let s := run init h in
+  is_insert o = true -> is_target s o d = true ->
+  let s' := crash s (plan s o) k in
+  plan s o = [] \/ rows_absent s' d
+  \/ (recorded s' d = true /\ mem d (d_loc (cdb s')) = true /\ knows s' d = true
+      /\ s' = recover (run_steps s (plan s o))).
+Proof.
+  intros h o k d s I T. destruct (plan s o) as [|t p] eqn:E; [left; reflexivity|]. rewrite <- E.
+  apply insertion_rows_atomic_l; auto.
+  - apply ovl_run, ovl_init.
+  - apply (fresh_id_of_good2 s o d (good2_run h init good2_init) I T). rewrite E. discriminate.
+Qed.
+Print Assumptions crash_insertion_all_or_nothing_all_histories.
+
+(* 9. Programs: several operations performed one after another by one process (`plan_seq`).  A crash at ANY step of the
+      program is the completed program, or a crash of exactly one of its operations started in the state the completed ones
+      left -- so every single-operation theorem above applies to programs. *)
+Theorem crash_of_program_is_crash_of_one_operation : forall os s k, ovl s = None ->
+  crash s (plan_seq s os) k = run s os
+  \/ exists pre o post k', os = pre ++ o :: post /\ crash s (plan_seq s os) k = crash (run s pre) (plan (run s pre) o) k'.
+Proof. exact crash_seq_decompose. Qed.
+Print Assumptions crash_of_program_is_crash_of_one_operation.
+
+(* 10. A multi-dataset put (a loop of Butler.put over distinct new datasets) interrupted ANYWHERE: a prefix of the datasets
+       is fully present (all rows, complete artifact with the given content), the rest is fully absent (no row). *)
+Theorem crash_multi_put_prefix : forall l s k, good s -> insert_ok (cdb s) (map fst l) = true ->
+  (forall d, mem d (map fst l) = true -> mem d (d_trash (cdb s)) = false) ->
+  let u := crash s (plan_seq s (map put_of l)) k in
+  exists j, Forall (fun dv => fully_present u (fst dv) (snd dv)) (firstn j l)
+            /\ Forall (fun dv => rows_absent u (fst dv)) (skipn j l).
+Proof. exact multi_put_prefix_l. Qed.
+Print Assumptions crash_multi_put_prefix.
+
+Theorem crash_multi_put_prefix_all_histories : forall h l k,
+  let s := run init h in
+  insert_ok (cdb s) (map fst l) = true ->
+  let u := crash s (plan_seq s (map put_of l)) k in
+  exists j, Forall (fun dv => fully_present u (fst dv) (snd dv)) (firstn j l)
+            /\ Forall (fun dv => rows_absent u (fst dv)) (skipn j l).
+Proof.
+  intros h l k s OK. destruct (good2_run h init good2_init) as [G P]. fold s in G, P.
+  apply multi_put_prefix_l; [exact G | exact OK|].
+  intros d M. pose proof (insert_ok_absent _ _ _ OK M) as A.
+  destruct (mem d (d_trash (cdb s))) eqn:T; [|reflexivity]. rewrite (P d T) in A. discriminate.
+Qed.
+Print Assumptions crash_multi_put_prefix_all_histories.
+
+(* 11. A multi-dataset transfer_from interrupted ANYWHERE before its commit: no row of any target is visible, and the
+       artifacts that have reached their final names are exactly those of a PREFIX of the refs, each complete with the source
+       content; every other final name is untouched.  (After the commit the state is the completed transfer: theorem 6.) *)
+Theorem crash_transfer_artifacts_prefix : forall s l k, ovl s = None -> insert_ok (cdb s) l = true ->
+  let u := crash s (plan s (Transfer l)) k in
+  u = run_op s (Transfer l)
+  \/ (cdb u = cdb s
+      /\ exists j, (forall d, mem d (firstn j l) = true -> fget (Final d) (fs u) = Some (Complete (src_value d)))
+                   /\ (forall d, mem d (firstn j l) = false -> fget (Final d) (fs u) = fget (Final d) (fs s))).
+Proof. exact transfer_crash_prefix_l. Qed.
+Print Assumptions crash_transfer_artifacts_prefix.
+
 (* ---- non-vacuity: the hypotheses are met by reachable, non-trivial states ------------------------------------ *)
 Example ex_bystander :
   let s := run init [Put 0 1; Put 1 2; IngestMove 4] in
@@ -211,3 +336,37 @@ Example ex_good_reachable : good (run init [Put 0 1; Put 1 2; IngestMove 4; Tras
 Proof.
   concrete_good.
 Qed.
+
+(* wave 5 *)
+Example ex_transfer_content :
+  let s := run init [Put 0 1] in
+  insert_ok (cdb s) [5; 2] = true /\ get (run_op s (Transfer [5; 2])) 2 = GotValue 202 /\ get (run_op s (Transfer [5; 2])) 0 = GotValue 1.
+Proof. vm_compute. repeat split. Qed.
+
+(* a history with two deaths (a put after its rename, a purge between its commit and emptyTrash) passes the fresh-id guard *)
+Example ex_crash_history_fresh :
+  let hs := [Done (Put 0 1); Crashed (Put 1 2) 5; Done (Put 1 3); Crashed (Prune [0] []) 5; Done (Put 2 9)] in
+  hist_fresh init hs = true /\ mem 0 (d_trash (cdb (runh init hs))) = true /\ get (runh init hs) 1 = GotValue 3.
+Proof. vm_compute. repeat split. Qed.
+
+(* the guard is needed IN THE MODEL (id = slot = path): re-inserting slot 0 while the purge of the old slot-0 dataset is
+   still pending breaks `good`.  Not reachable in the implementation, where the new dataset has a new UUID. *)
+Example ex_fresh_guard_is_needed :
+  let hs := [Done (Put 0 1); Crashed (Prune [0] []) 5; Done (Put 0 2)] in
+  hist_fresh init hs = false /\ mem 0 (d_loc (cdb (runh init hs))) = true /\ mem 0 (d_trash (cdb (runh init hs))) = true.
+Proof. vm_compute. repeat split. Qed.
+
+(* a three-dataset put dying while the second artifact sits under its temporary name: first present, others absent *)
+Example ex_multi_put_prefix :
+  let s := run init [Put 0 1] in
+  let l := [(1, 11); (4, 44); (2, 22)] in
+  let u := crash s (plan_seq s (map put_of l)) 12 in
+  insert_ok (cdb s) (map fst l) = true /\ length (plan_seq s (map put_of l)) = 24%nat
+  /\ fully_present u 1 11 /\ rows_absent u 4 /\ rows_absent u 2 /\ fget (Tmp 0) (fs u) = Some (Complete 44).
+Proof. vm_compute. repeat split. Qed.
+
+Example ex_transfer_prefix :
+  let s := run init [Put 0 1] in
+  let u := crash s (plan s (Transfer [5; 2; 3])) 7 in       (* second artifact written under its temporary name *)
+  cdb u = cdb s /\ fget (Final 5) (fs u) = Some (Complete 205) /\ fget (Final 2) (fs u) = None /\ fget (Final 3) (fs u) = None.
+Proof. vm_compute. repeat split. Qed.
